@@ -31,7 +31,7 @@
 ///
 /// ## Two-Qubit Gates
 ///
-/// - `cnot(control, target)`
+/// - `cnot(target, control)`
 /// - `swap(qubit1, qubit2)`
 ///
 /// ## Controlled Gates
